@@ -20,7 +20,7 @@ CLAIMED = {
              "bytes (73 encodings, any later input, either timeout setting), a typed character is inserted exactly once at the "
              "cursor for every character/text/cursor/configuration, and no Move command changes the text for every movement and "
              "count. PARTIAL: the composition over arbitrary key sequences is the model function read_line itself, tied to /repo by "
-             "the keys stream (text, cursor, mode, argument before every key, result, every byte written) and judged on the "
+             "the keys stream (text, cursor, mode, argument before every key, result; the bytes written are C02's) and judged on the "
              "implementation by a spec oracle for the commands with a crisp documented meaning; vi `.`, transpose, case change, "
              "indent have no independent statement.",
         note=TTY_NOTE + "Known finding K_word_count (C04) limits the count convention for word commands.",
